@@ -391,6 +391,8 @@ def precedence_tables(check, prog):
     A = intern(('cmp', 'in', K, om))
     B = intern(('cmp', 'is not', mv, NONE))
     C = intern(('call', 'hasattr', (schema, K), ()))
+    labelled = intern(('call', 'holopy.core.metadata.dict_to_array', (schema, mv), ()))
+    raw_model_noise = False
     uni = [x for x in subterms(v) if x[0] == 'call' and x[1] == 'numpy.all']
     ok = len(uni) == 1
     detail = 'no test that all priors are uniform'
@@ -426,7 +428,9 @@ def precedence_tables(check, prog):
             if src is None:
                 good = leaf is not None and leaf[0] == 'raise'
             elif not nn:
-                good = leaf == src
+                good = leaf == src or (src == mv and leaf == labelled)
+                if src == mv and leaf == mv:
+                    raw_model_noise = True
             elif u:
                 good = leaf == num(1)
             else:
@@ -439,6 +443,21 @@ def precedence_tables(check, prog):
                   "the model's noise_sd if set, else the data's attribute; a None "
                   'value becomes 1 only when every prior is Uniform, otherwise '
                   'MissingParameter (%d rows)' % rows, loc, fail_detail=detail)
+
+
+    # per-channel noise: the data's own noise_sd was labelled by update_metadata
+    # (dict_to_array: one value per illumination label); the model's comes straight
+    # out of the parameter map -- a dict or a bare list -- and then divides a
+    # (illumination, x, y, z) residual array
+    check.require(not raw_model_noise, 'P5-per-channel-noise', 'Model._find_noise model value',
+                  "the model's own noise_sd is attached to the illumination labels "
+                  'before it is used, like the data\'s', loc,
+                  fail_detail="the model's noise_sd is returned as it comes out of the "
+                  "parameter map: a per-channel dict makes lnlike raise TypeError "
+                  "(np.log of a dict), a per-channel list is broadcast against the "
+                  "trailing z axis of the (illumination, x, y, z) residuals (lnlike "
+                  "-23138 instead of -5902 for 3 channels; the same pixels flattened "
+                  "give the right value)")
 
 
 def forward(check, prog):
